@@ -450,6 +450,14 @@ func judge(c Case, o *outcome) (sig, msg string) {
 		return "serialise-error", fmt.Sprintf("Bytes() of a message built through the API: %v (Date header %q)", err, m.Header.Get("Date"))
 	}
 	o.raw = raw
+	// the caller owns what Bytes() returned: a private copy is kept and compared at the very end, after many more
+	// serialisations of this and of other messages
+	rawCopy := append([]byte(nil), raw...)
+	defer func() {
+		if sig == "" && !bytes.Equal(raw, rawCopy) {
+			sig, msg = "bytes-result-changed-later", fmt.Sprintf("the slice returned by the first Bytes() call was modified by later calls (first difference at byte %d of %d): the result aliases memory the library reuses", firstDiff(raw, rawCopy), len(rawCopy))
+		}
+	}()
 	if again, err := m.Bytes(); err != nil || !bytes.Equal(raw, again) {
 		return "serialisation-not-deterministic", fmt.Sprintf("two Bytes() calls on the same message differ (err=%v)", err)
 	}
